@@ -434,18 +434,6 @@ class Monitor:
         from poorwsgi.headers import Headers
         self.ctx = ctx
         self.cls = Headers
-        self.deviations = {}
-
-    def deviation(self, key, detail):
-        """a departure from the property text that the framework owner has
-        not (yet) registered: fails only once registered as a finding"""
-        if key in self.ctx.known:
-            self.ctx.violation(key, detail)
-            return
-        self.ctx.count("deviation:" + key)
-        if key not in self.deviations:
-            self.deviations[key] = detail
-            self.ctx.notes.append("deviation %s: %s" % (key, detail))
 
     def observe(self, hdr, ref, hist):
         """items(), len, and every lookup under every casing"""
@@ -527,23 +515,24 @@ class Monitor:
                     "add-duplicate-accepted" if allowed[0] == "KeyError"
                     else "not-rejected", detail)
                 return False
-            if got.name in allowed:
-                pass
-            elif got.name == "AttributeError" and allowed != ("KeyError",) \
-                    and not isinstance(op[1], str):
-                self.deviation("nonstr-name-attributeerror", detail)
-            else:
-                self.ctx.violation(
-                    "add-refused" if got.name == "KeyError"
-                    else "rejected-with-other-exception", detail)
+            if got.name not in allowed:
+                if got.name == "AttributeError" and \
+                        allowed != ("KeyError",) and \
+                        not isinstance(op[1], str):
+                    key = "nonstr-name-attributeerror"   # fixed in 46f0b75
+                elif got.name == "KeyError":
+                    key = "add-refused"
+                else:
+                    key = "rejected-with-other-exception"
+                self.ctx.violation(key, detail)
                 return False
             # a rejected operation must not change the collection (observe()
-            # compares items() with the unchanged reference); the one known
-            # departure is followed so that checking can go on
-            if op[0] == "set" and Ref.good(op[1]) and \
-                    len(hdr) != len(before) and ref.find(op[1]):
-                self.deviation("rejected-set-deletes", detail)
-                ref.drop(op[1])
+            # also compares items() with the unchanged reference)
+            if len(hdr) != len(before):
+                self.ctx.violation(
+                    "rejected-set-deletes" if op[0] == "set"   # fixed 0231c65
+                    else "rejected-operation-changed-collection", detail)
+                return False
             return True
         if isinstance(got, Exn):
             if kind == "wire-or-reject" and got.name in REJECT:
@@ -695,8 +684,8 @@ def run(ctx):
             add_case(ops, named=True)
             ctx.count("corr:exhaustive-4")
     # random long histories: mostly valid, and hostile
-    for hostile, count in ((0.02, 300 if quick else 4000),
-                           (0.35, 200 if quick else 3000)):
+    for hostile, count in ((0.02, 300 if quick else 2500),
+                           (0.35, 200 if quick else 1500)):
         for _ in range(count):
             ops = [random_op(rng, hostile)
                    for _ in range(rng.randint(6, 40))]
@@ -780,8 +769,8 @@ def run(ctx):
             if len(ctx.violations) > 20:
                 break
     # random long histories, valid and hostile
-    for hostile, count in ((0.02, 1500 if quick else 40000),
-                           (0.35, 1000 if quick else 20000)):
+    for hostile, count in ((0.02, 1500 if quick else 20000),
+                           (0.35, 1000 if quick else 10000)):
         for _ in range(count):
             ops = [random_op(rng, hostile)
                    for _ in range(rng.randint(6, 60))]
@@ -820,8 +809,6 @@ def run(ctx):
         if not (isinstance(got, Exn) and got.name in REJECT):
             ctx.violation("not-rejected", {"iso88591": ascii(bad),
                                            "got": ascii(got)})
-    ctx.extra["deviations_from_property_text"] = {
-        k: v for k, v in mon.deviations.items()}
     return ctx.finish(
         "correspondence: every history of length 3 over a pool of %d mutators "
         "(add/set/del/setdefault/add_header on X-Tok, x-tok, Set-Cookie, "
